@@ -350,6 +350,13 @@ impl LockFreeMemoryPool {
             return Err(ZiporaError::invalid_data("Cannot allocate zero bytes"));
         }
 
+        // Nothing larger than the arena can ever be served; refusing it here also keeps the
+        // alignment arithmetic below from overflowing for sizes close to usize::MAX (which
+        // wrapped to a tiny aligned size and was served from the smallest bin)
+        if size > self.config.memory_size {
+            return Err(ZiporaError::out_of_memory(size));
+        }
+
         let aligned_size = self.align_size(size);
 
         if aligned_size <= FAST_BIN_THRESHOLD {
